@@ -9,5 +9,8 @@ CONSTANTS
   NeedLead = TRUE
 INVARIANT ColumnsDisjoint
 INVARIANT HitsInside
+INVARIANT LinesInside
+INVARIANT LinesNested
+INVARIANT HitsRestOnLines
 CONSTRAINT EmitScn
 CHECK_DEADLOCK FALSE
